@@ -423,7 +423,7 @@ META = {
     'required_covers': ['nontrivial', 'granted', 'delivered', 'cancelled-pending', 'with-exit-pending', 'pending-at-quiescence', 'filter-overtake', 'two-instances'],
     'bounds': {'quick': 'histories of 3 operations (put/get) plus one cancel of an earlier pending request, issued at symbolic, possibly '
                         'coinciding instants; Container capacity/init/amounts symbolic Int or Real; Store/PriorityStore/FilterStore capacity '
-                        'symbolic Int >= 1, priorities and filter thresholds symbolic Int',
+                        'symbolic Int >= 1, priorities and filter thresholds symbolic Int; falsy and equal-but-distinct items; double cancel; fractional capacities; exact near-equal amounts (grid); two stores side by side; runs of 8 puts + 8 gets',
                'thorough': 'histories of 4 operations plus a cancel; all put/get histories of 5 operations; 6 operations in two bursts'},
     'assumptions': ['requests are issued by one process that does not wait for them (several may be pending at once)',
                     'PriorityStore: order among equal priorities is not asserted', 'filters are of the form x >= threshold'],
